@@ -142,6 +142,22 @@ fn tmp_base(args: &[String]) -> PathBuf {
     p
 }
 
+fn t5_env(tmp: &Path) -> R<&'static (tokio::runtime::Runtime, crate::t5::Harness)> {
+    static T5: std::sync::OnceLock<(tokio::runtime::Runtime, crate::t5::Harness)> = std::sync::OnceLock::new();
+    if let Some(x) = T5.get() {
+        return Ok(x);
+    }
+    let rt = tokio::runtime::Builder::new_current_thread()
+        .enable_all()
+        .start_paused(true)
+        .build()
+        .map_err(|e| SimError::Harness(format!("runtime: {e}")))?;
+    let dir = tmp.join(format!("t5-{}", std::process::id()));
+    let h = rt.block_on(crate::t5::Harness::new(&dir))?;
+    let _ = T5.set((rt, h));
+    Ok(T5.get().unwrap())
+}
+
 /// One run of a tier, by seed.
 pub fn run_one(tier: &str, check: &str, seed: u64, tmp: &Path, log: Option<&mut Vec<String>>) -> R<RunOutcome> {
     match tier {
@@ -150,6 +166,11 @@ pub fn run_one(tier: &str, check: &str, seed: u64, tmp: &Path, log: Option<&mut 
         "t3" => {
             crate::t3::install_metrics();
             with_runtime(crate::t3::run_generated(seed, tmp))
+        }
+        "t5" => {
+            let (rt, h) = t5_env(tmp)?;
+            let clients = crate::t5::generate(seed);
+            rt.block_on(crate::t5::execute(h, seed, &clients))
         }
         other => Err(SimError::Harness(format!("unknown tier {other}"))),
     }
@@ -182,6 +203,14 @@ pub fn run_list(
                 .map(|e| serde_json::from_value(e.clone()))
                 .collect::<Result<_, _>>()?;
             with_runtime(crate::t3::run_events(seed, cfg, &evs, tmp, tag))
+        }
+        "t5" => {
+            let (rt, h) = t5_env(tmp)?;
+            let clients: Vec<crate::t5::Client> = events
+                .iter()
+                .map(|e| serde_json::from_value(e.clone()))
+                .collect::<Result<_, _>>()?;
+            rt.block_on(crate::t5::execute(h, seed, &clients))
         }
         "t8" => {
             let ops: Vec<crate::t8::Op> = events
